@@ -416,6 +416,7 @@ func spanWid(sp *tracev1.Span) (int64, bool) {
 type Returned struct {
 	Wids    []int64
 	Entries int // number of Trace entries of the response carrying this id
+	Pos     int // position of the first Trace entry with this id in the response
 }
 
 // Collect groups an answer by trace id and verifies that every returned span is attributable to an
@@ -425,7 +426,7 @@ func (m *TraceModel) Collect(traces []*tracev1.Trace) (got map[string]*Returned,
 	for _, tr := range traces {
 		r := got[tr.GetTraceId()]
 		if r == nil {
-			r = &Returned{}
+			r = &Returned{Pos: len(got)}
 			got[tr.GetTraceId()] = r
 		}
 		r.Entries++
